@@ -56,6 +56,8 @@ def setup():
             log(txt[-2000:])
             return 1
         for name, spec in verus_engine.NATIVE_SEARCHES.items():
+            if name == "native_easing_exhaustive":
+                continue  # thorough tier only (4 minutes on 16 cores); nothing to warm that the others do not
             st, txt = spec["run"]()
             if st != "agree":
                 log("setup: %s did not agree on the unchanged tree (%s)" % (name, st))
@@ -266,7 +268,8 @@ def run_check(pid, tier, seed, only=None, keep=False):
         # (a disagreement is a violation with a concrete input; agreement decides nothing) when a bounded Kani obligation
         # they shadow came back undecided or failed without a replayable input
         import verus_engine as _ve
-        wanted = [n for n in pinfo.get("native", []) if not only or n in only]
+        registered = list(pinfo.get("native", [])) + (list(pinfo.get("native_thorough", [])) if tier == "thorough" else [])
+        wanted = [n for n in registered if not only or n in only]
         for rec in undecided + [r for r in violations if not r.get("native_confirmed")]:
             if rec.get("engine") != "kani":
                 continue
@@ -283,7 +286,7 @@ def run_check(pid, tier, seed, only=None, keep=False):
             per.append(nrec)
             if nrec["verdict"] == "fail":
                 violations.append(nrec)
-            elif nrec["verdict"] == "undecided" and name in pinfo.get("native", []):
+            elif nrec["verdict"] == "undecided" and name in registered:
                 undecided.append(nrec)
     except Undecided as e:
         log("UNDECIDED: %s" % e)
@@ -329,8 +332,12 @@ def run_check(pid, tier, seed, only=None, keep=False):
         for rec in undecided:
             log("UNDECIDED: %s: %s" % (rec["id"], rec["detail"]))
         return 2
-    print("OK property=%s tier=%s obligations=%d discharged=%d wall=%.0fs" % (
-        pid, tier, ev["coverage"]["obligations"], ev["coverage"]["discharged"], time.time() - t0))
+    if ev["coverage"]["obligations"] + ev["coverage"].get("obligations_bounded", 0) == 0:
+        log("VACUITY GUARD TRIPPED (framework problem, not a property violation): the check generated no obligation at all")
+        return 2
+    print("OK property=%s tier=%s obligations=%d discharged=%d bounded=%d discharged_bounded=%d wall=%.0fs" % (
+        pid, tier, ev["coverage"]["obligations"], ev["coverage"]["discharged"], ev["coverage"].get("obligations_bounded", 0),
+        ev["coverage"].get("discharged_bounded", 0), time.time() - t0))
     return 0
 
 
